@@ -252,11 +252,16 @@ func (o *Opts) Matrix() any {
 	if r.Intn(12) == 0 {
 		// degenerate forms: no setup at all / explicit null setup
 		o.hist("matrix.degenerate")
-		if r.Bool() {
+		switch r.Intn(3) {
+		case 0:
 			m.Set("setup", nil)
+		case 1:
+			m.Set("setup", ordered.NewMap[string, any](0)) // explicitly empty, not absent
 		}
 		if r.Bool() {
 			m.Set("adjustments", []any{ordered.MapFromItems(ordered.TupleSA{Key: "soft_fail", Value: true})})
+		} else if r.Bool() {
+			m.Set("adjustments", []any{ordered.MapFromItems(ordered.TupleSA{Key: "with", Value: ordered.NewMap[string, any](0)}, ordered.TupleSA{Key: "skip", Value: true})})
 		}
 		return m
 	}
